@@ -488,6 +488,34 @@ func (u *pathUniverse) observeC12(st *pathState) *core.Violation {
 			return &core.Violation{Sub: "observe", Sig: "OBSERVE CountField", Detail: fmt.Sprintf("CountField(%q): model (%d,%v) impl (%d,%v)", name, want, ok, got, err)}
 		}
 	}
+	// CountField with the documented PathSep option: nested names
+	for _, name := range []string{"a.a", "a.b", "b.x", "a.0", "b.l", "b.l.0"} {
+		mn, r := tree.Get(st.mroot, tree.ParseAddr(name, -1, "."))
+		got, err := st.root.CountField(name, ucfg.PathSep("."))
+		switch {
+		case r != tree.OK:
+			if err == nil {
+				return &core.Violation{Sub: "observe", Sig: "OBSERVE CountField(path)", Detail: fmt.Sprintf("CountField(%q, PathSep): model has no such setting, impl %d", name, got)}
+			}
+		default:
+			want := 1
+			switch {
+			case mn.K == tree.Nil:
+				want = 0
+			case mn.K == tree.Cont && mn.IsArray():
+				want = len(mn.A)
+			}
+			if mn.K == tree.Cont && len(mn.D) > 0 && len(mn.A) > 0 {
+				continue // (a node with both parts: what counts is not defined)
+			}
+			if mn.K == tree.Cont && len(mn.D) == 0 && len(mn.A) == 0 {
+				continue // (nil and the empty container are not told apart by the model)
+			}
+			if err != nil || got != want {
+				return &core.Violation{Sub: "observe", Sig: "OBSERVE CountField(path)", Detail: fmt.Sprintf("CountField(%q, PathSep): model %d impl (%d,%v)", name, want, got, err)}
+			}
+		}
+	}
 	if !sameKind(st.root, st.mroot) {
 		return &core.Violation{Sub: "observe", Sig: "OBSERVE IsDict/IsArray root", Detail: fmt.Sprintf("model dict=%v array=%v impl dict=%v array=%v", st.mroot.IsDict(), st.mroot.IsArray(), st.root.IsDict(), st.root.IsArray())}
 	}
